@@ -176,23 +176,19 @@ example : (ctxVau (build exCfg) (.str exFacts) .none .none ["user", "encoding"] 
 theorem passKwds_nil (st : State) (r : Rec) : passKwds st r [] = [] := by
   unfold passKwds; split <;> rfl
 
-/-- `verify(secret, None, **kwds)` is documented to return False; when the default scheme cannot hash without a keyword
-(`user` of postgres_md5 / oracle10 / msdcc, `user`+`realm` of htdigest) the first such call on an object is a TypeError instead:
-the caller's keywords never reach `_dummy_hash` (stated as the code is; reproduced on the real code, see the report). -/
-theorem verify_none_required_typeError (st : State) (hd : st.dummy = false) (r : Rec) (k : Kw)
-    (hr : getRecord st.cfg .none .none = .ok r) (hk : k ∈ r.hasher.required)
-    (scheme cat : Arg) (kws : List Kw) (df : String → SchemeFacts) :
-    (ctxVerify st .none scheme cat kws df).2.1 = .error .typeError ∧
-    (ctxVerify st .none scheme cat kws df).1 = [callOf r .hash []] := by
-  have hp : r.hasher.problem [] = .missing := by
-    unfold Hasher.problem
-    have : (r.hasher.required.all fun k => ([] : List Kw).contains k) = false := by
-      rw [List.all_eq_false]; exact ⟨k, hk, by simp⟩
-    rw [this]; rfl
-  simp [ctxVerify, dummyVerify, hd, ctxHash, hr, passKwds_nil, Hasher.accepts, hp]
+/-- `verify(secret, None, **kwds)` returns False also when the default scheme cannot hash without a keyword (`user` of postgres_md5 /
+oracle10 / msdcc, `user` + `realm` of htdigest): the dummy hash is made and verified with stand-in keywords (fix ff50ac0; before it the
+first such call on an object was a TypeError — found by this model, reproduced on the real code).  The stand-ins are exactly the
+keywords `user` / `realm` that some scheme of the context declares. -/
+theorem dummyKwds_spec (st : State) (k : Kw) :
+    k ∈ dummyKwds st ↔ (k = "user" ∨ k = "realm") ∧ k ∈ allKwds st.cfg := by
+  simp [dummyKwds, List.mem_filter]
 
 example : (ctxVerify (build ⟨[⟨"postgres_md5", ["user"], ["user"]⟩], [], [], [], [(none, "postgres_md5")]⟩) .none .none .none ["user"]
-    (fun _ => ⟨true, .ok false, .ok false, .typeError, .typeError⟩)).2.1 = .error .typeError := by decide
+    (fun _ => ⟨true, .ok false, .ok false, .typeError, .typeError⟩)).2.1 = .ok false := by decide
+
+example : (ctxVerify (build ⟨[⟨"htdigest", ["user", "realm", "encoding"], ["user", "realm"]⟩, ⟨"md5_crypt", [], []⟩], [], [], [], [(none, "htdigest")]⟩) .none .none .none []
+    (fun _ => ⟨true, .ok false, .ok false, .typeError, .typeError⟩)).2.1 = .ok false := by decide
 
 /-! ### category_fallback, category_type_error, scheme_keyword_spec -/
 
